@@ -106,7 +106,12 @@ def _correspond(ctx):
                          "lists, Python literals, empty / constant-only forms, depth<=3, <=3 bools and <=3 ints with small domains); "
                          "per constraint: the real _convert_expr result evaluated by z3 under random assignments vs the Lean model's "
                          "convertExpr/zeval vs the Lean reference semantics eval; per session: real find_answer('z3') verdict and sol vs "
-                         "the Lean model count by enumeration; non-trivial = at least one operator node, distinct by program text")
+                         "the Lean model count by enumeration; non-trivial = at least one operator node, distinct by program text.  MEDIUM sizes: "
+                         "for EVERY operand count n = 30..260 two deterministic sessions (dslgen.medium_session: n variables, all but one "
+                         "or two pinned by unit constraints, one constraint over all n through count_true ==/>=, a direct n-ary + of "
+                         "cond terms, fold_or, fold_and or alldifferent; satisfiable with 1-2 known models or unsatisfiable by parity of "
+                         "n): real verdict and sol vs the models known by construction (NOT vs a Lean enumeration: 2^n), and the n-ary "
+                         "node itself through the real _convert_expr vs Lean zval/eval under one assignment")
     drv = core.Driver()
     nsess = ctx.n(500, 6000)
     lines, meta = [], []
@@ -165,6 +170,7 @@ def _correspond(ctx):
         lines.append(f"(models {decls} " + " ".join(cs) + ")")
         meta.append(("models", cs, decls, out, s, shadow))
         ctx.case({"decls": decls, "constraints": cs[:3]}, " ".join(cs) if any("(" in c for c in cs) else None)
+    _medium_stream(ctx, lines, meta)
     _session_stream(ctx, drv)
     outs = drv.run(lines)
     for m, out in zip(meta, outs):
@@ -198,6 +204,103 @@ def _correspond(ctx):
                 oob = [v.id for v in s.variables if isinstance(v, IntVar) and not (v.lo <= asg[f"i{v.id}"] <= v.hi)]
                 if bad or oob:
                     ctx.disagree("find_answer-sol-not-model", constraints=m[1], decls=m[2], sol=asg, violated=bad, out_of_bounds=oob)
+
+
+def _medium_plan(full):
+    """(n, form, satisfiable) for the medium-size family: every operand count n in dslgen.MEDIUM_NS gets one of the three ADD
+    forms (rotating with a period that is not aligned with n: (n + n // 6) % 3; satisfiable iff n is even) and one of fold_or /
+    fold_and / alldifferent (rotating, satisfiable iff n is odd).  full=True: every form in both variants for every n."""
+    F = dslgen.MEDIUM_FORMS
+    plan = []
+    for n in dslgen.MEDIUM_NS:
+        if full:
+            plan += [(n, f, sat) for f in F for sat in (True, False)]
+            continue
+        plan.append((n, F[(n + n // 6) % 3], n % 2 == 0))
+        plan.append((n, F[3 + (n + n // 6 + 1) % 3], n % 2 == 1))
+    return plan
+
+
+def _medium_one(n, form, sat):
+    """One medium session through the real find_answer('z3') against the models known by construction: None or (kind, detail)."""
+    from cspuz.expr import BoolVar
+    s, bools, ints = dslgen.medium_session(n, form, sat)
+    models = s._verif_models
+    detail = {"medium": [n, form, sat], "what": s._verif_text, "models": len(models)}
+    try:
+        r = s.find_answer("z3")
+    except Exception as e:
+        return ("exception:medium:" + form, dict(detail, exception=core.err_name(e)))
+    if r != (len(models) > 0):
+        return ("verdict:medium:" + form, dict(detail, find_answer=r))
+    if r:
+        asg = {(f"b{v.id}" if isinstance(v, BoolVar) else f"i{v.id}"): v.sol for v in s.variables}
+        if asg not in models:
+            diff = {k: v for k, v in asg.items() if v != models[0].get(k)}
+            return ("sol-not-a-model:medium:" + form, dict(detail, sol_differs_from_first_model_at=diff))
+    return None
+
+
+def _medium_stream(ctx, lines, meta):
+    """The medium-size family (dslgen.medium_session): real verdict and sol against the models known by construction (no Lean
+    model count: 2^n assignments).  The n-ary node of each session also goes through the per-constraint translation check (real
+    _convert_expr under z3 vs the Lean zval / eval): the ADD node itself (an integer: any change of value shows) under a random
+    assignment; the OR / AND / ALLDIFF constraint under the first model (or the pinned values) or that with one position
+    changed (one more true/false operand, one repeated value)."""
+    from cspuz.backend import z3 as zb
+    from cspuz.expr import BoolVar
+    for n, form, sat in _medium_plan(not ctx.quick()):
+        s, bools, ints = dslgen.medium_session(n, form, sat)
+        models = s._verif_models
+        text = s._verif_text
+        ctx.case({"medium": text}, text)
+        ctx.count("medium:" + form + (":sat" if sat else ":unsat"))
+        names = [(f"b{v.id}" if isinstance(v, BoolVar) else f"i{v.id}") for v in s.variables]
+        for m in models:
+            if not all(sh(m) is True or sh(m) == True for sh in s._verif_sems):  # noqa: E712
+                ctx.disagree("harness-medium-model", medium=text)
+        c = s.constraints[s._verif_nary]
+        if form in ("count_eq", "count_ge", "add_cond"):
+            c = c.operands[0]
+            asg = _rand_asg(ctx.rng, s)
+            meant = sum(1 for k in names if asg[k])
+        else:
+            asg = dict(s._verif_point)
+            if (n // 3) % 2:
+                j = (3 * n) // 7
+                asg[names[j]] = (not asg[names[j]]) if bools else asg[names[j + 1]]
+            meant = s._verif_sems[s._verif_nary](asg)
+        ct = exprio.pexpr(c)
+        decls = "(" + " ".join(exprio.pdecl(v) for v in s.variables) + ")"
+        be = zb.Z3Backend(s.variables)
+        at = sx(_asg_text(s, asg))
+        try:
+            val = sx(_z3_value(zb._convert_expr(c, be.variables_dict), be.variables_dict, s, asg))
+        except Exception as e:
+            val = "(err " + core.err_name(e) + ")"
+        try:
+            ref = exprio.ev(core.parse_sx(ct), asg)
+        except exprio.IllTyped:
+            ref = "N"
+        if type(ref) is not type(meant) or ref != meant:
+            ctx.disagree("dsl-construction", medium=text, assignment=at[:300], meaning=meant, built_tree=ref)
+        lines.append(f"(zval {decls} {ct} {at})")
+        meta.append(("zval", text + " " + ct[:200], at[:400], val))
+        lines.append(f"(eval {decls} {ct} {at})")
+        meta.append(("eval", text + " " + ct[:200], at[:400], sx(ref)))
+        try:
+            r = s.find_answer("z3")
+        except Exception as e:
+            ctx.disagree("find_answer-exception", medium=text, exception=core.err_name(e), models_by_construction=len(models))
+            continue
+        ctx.count("find_answer:" + str(r))
+        if r != (len(models) > 0):
+            ctx.disagree("find_answer-verdict", medium=text, real=r, models_by_construction=len(models))
+        elif r:
+            sol = {k: v.sol for k, v in zip(names, s.variables)}
+            if sol not in models:
+                ctx.disagree("find_answer-sol-not-model", medium=text,
+                             sol_differs_from_first_model_at={k: v for k, v in sol.items() if v != models[0][k]})
 
 
 def _session_stream(ctx, drv):
@@ -301,6 +404,15 @@ def _session_stream(ctx, drv):
 
 def search(ctx, why):
     found = {}
+    for n, form, sat in _medium_plan(not ctx.quick()):
+        try:
+            bad = _medium_one(n, form, sat)
+        except Exception as e:
+            bad = ("harness-exception", {"exception": repr(e), "medium": [n, form, sat]})
+        ctx.count("search:medium-sessions")
+        if bad and bad[0] not in found:
+            kind, d = bad
+            found[kind] = Finding("find_answer:" + kind, f"find_answer('z3') {kind}: {d}", d)
     for k in range(ctx.n(1500, 6000)):
         try:
             bad = _one(ctx.rng, incremental=(k % 3 == 0), corner=(k if k < dslgen.N_CORNERS else None))
@@ -315,6 +427,9 @@ def search(ctx, why):
 
 def replay(ctx, data):
     from cspuz.expr import BoolVar
+    if data.get("medium"):
+        bad = _medium_one(*data["medium"])
+        return Finding("find_answer:replay", f"{bad[0]}: {bad[1]}", data) if bad else None
     s = exprio.build_session(data["decls"], data["constraints"], posts=data.get("posts"))
     if data.get("posts"):
         meant = exprio.build_session(data["decls"], [t for _, ts in data["posts"] for t in ts])
